@@ -1200,7 +1200,7 @@ class Processor:
                         ancestry + [(data, intmin)], pathseg)
 
             elif isinstance(data, dict):
-                for key, val in data.items():
+                for key, val in list(data.items()):
                     if min_match <= str(key) <= max_match:
                         yield NodeCoords(
                             val, data, key,
@@ -1315,7 +1315,7 @@ class Processor:
                                 next_ancestry, pathseg)
                             break
 
-            for key, val in data.items():
+            for key, val in list(data.items()):
                 next_ancestry = ancestry + [(data, key)]
                 if (hasattr(key, "anchor")
                         and stripped_attrs == key.anchor.value):
@@ -1473,7 +1473,7 @@ class Processor:
                 self.logger.debug(
                     "Scanning every key's name...",
                     prefix="Processor::_get_nodes_by_search:  ")
-                for key, val in data.items():
+                for key, val in list(data.items()):
                     matches = Searches.search_matches(method, term, key)
                     if (matches and not invert) or (invert and not matches):
                         debug_matched = "one dictionary key name match yielded"
@@ -1952,7 +1952,7 @@ class Processor:
                 return
 
             if isinstance(data, (CommentedMap, dict)):
-                for key, val in data.items():
+                for key, val in list(data.items()):
                     next_translated_path = (
                         translated_path + YAMLPath.escape_path_section(
                             key, translated_path.separator))
@@ -2040,7 +2040,7 @@ class Processor:
 
             # Then, recurse into each child to perform the same test.
             if isinstance(data, dict):
-                for key, val in data.items():
+                for key, val in list(data.items()):
                     self.logger.debug(
                         "Processor::_get_nodes_by_traversal:  Recursing into"
                         " KEY '{}' at ref '{}' for next-segment matches..."
@@ -2122,7 +2122,7 @@ class Processor:
             self.logger.debug(
                 "Iterating over all keys to find ANY matches in data:",
                 prefix=dbg_prefix, data=data)
-            for key, val in data.items():
+            for key, val in list(data.items()):
                 next_translated_path = (
                     translated_path + YAMLPath.escape_path_section(
                         key, translated_path.separator))
@@ -2207,7 +2207,7 @@ class Processor:
             self.logger.debug(
                 "Iterating over all keys to find ANY matches in data:",
                 prefix=dbg_prefix, data=data)
-            for key, val in data.items():
+            for key, val in list(data.items()):
                 next_translated_path = (
                     translated_path + YAMLPath.escape_path_section(
                         key, translated_path.separator))
